@@ -368,6 +368,53 @@ def explore_nopanic(item):
     return out
 
 
+def optional_probe_part(rep):
+    """Tier B: "`optional` on a field that is not an Option is a compile error" rests on a probe the derive plants in the generated
+    code: `check_that_field_is_option::<FieldType>` (bounded by `IsOption`) next to every field carrying `#[ts(optional..)]`.  For every
+    corpus item, the set of probes the generated inline() calls must be exactly one per such field, instantiated at the field's type
+    (or at its `as` type)."""
+    from . import tyres, c07
+    tyres.setup()
+    TG = tyres.G
+    ob = di = 0
+    for name, item in TG['corpus'].items():
+        src = item['src']
+        fields = re.findall(r'#\[ts\(([^\]]*\boptional\b(?!_)[^\]]*)\)\]\s*(?:pub\s+)?(?:r#)?\w+\s*:\s*([^,}]+(?:<[^{}]*>)?)', src)
+        want = set()
+        for attr, ty in fields:
+            a = re.search(r'\bas\s*=\s*"([^"]+)"', attr)
+            want.add(re.sub(r'\s+', '', a.group(1) if a else ty))
+        if not want:
+            continue
+        ty_text = c07.type_text(name, item)
+        ex = Explorer()
+
+        def h(ctx):
+            r = tyres.Resolver(item['generics'])
+            m = tyres.machine(ctx, r)
+            try:
+                m.call(f'<{ty_text} as TS>::inline', [])
+            except Panic:
+                pass
+            return {re.sub(r'\s+', '', q.group(1)) for c in m.calls for q in [re.search(r'::check_that_field_is_option::<(.*)>$', c)] if q}
+        try:
+            res = ex.run(h)
+        except Unsupported as e:
+            rep.inconclusive.append(f'optional probe {name}: {e}')
+            continue
+        rep.absorb(dict(paths=ex.paths, nontrivial=ex.paths, queries=ex.queries, solver_s=ex.solver_s))
+        for pc, got in res:
+            ob += 1
+            norm = lambda t: re.sub(r'\b(std::option::|std::vec::|core::option::)', '', t)
+            if {norm(g) for g in got} != {norm(w) for w in want}:
+                rep.violations.append({'what': f'{src}: fields marked `optional` are {sorted(want)} but the generated code probes {sorted(got)} for being an '
+                                               f'Option: a non-Option field would be accepted silently', 'witness': {'item': name}, 'key': f'optprobe/{name}'})
+            else:
+                di += 1
+    rep.absorb(dict(obligations=ob, discharged=di))
+    rep.part('compile-time Option probe per `optional` field (tier B corpus)', obligations=ob)
+
+
 def main():
     rep = report.Report('C16', 'bounded symbolic execution of rustc MIR: attribute records with every Option/bool a solver variable, lazily '
                                'created syn items, identifiers/names as symbolic strings; z3 decides on every path "no panic", "every documented '
@@ -419,6 +466,10 @@ def main():
                     'the type_def / format_field / format_variant code generators themselves (they build token streams)']
     rep.assumptions += ['the frozen incompatibility table lists exactly the conflicts diagnosed at the pinned commit (it is the specification '
                         'of "documented as incompatible")']
+    try:
+        optional_probe_part(rep)
+    except Unsupported as e:
+        rep.inconclusive.append(f'optional probe part: {e}')
     return rep.finish()
 
 
